@@ -567,6 +567,8 @@ func genCfg(rng *rand.Rand, i int) GameCfg {
 	}
 	if rng.Intn(5) == 0 {
 		c.Hole, c.Req = 4, 2
+	} else if rng.Intn(8) == 0 {
+		c.Hole, c.Req = 2, 2 // both hole cards must play
 	}
 	c.Short = rng.Intn(4) == 0
 	if c.Short && c.Hole*n+8 > 36 {
@@ -590,8 +592,12 @@ func genCfg(rng *rand.Rand, i int) GameCfg {
 		c.DB = int64(1 + rng.Intn(12))
 	}
 	big := rng.Intn(12) == 0
+	tiny := rng.Intn(5) == 0 // several stacks below one big blind
 	for k := 0; k < n; k++ {
 		b := int64(1 + rng.Intn(40))
+		if tiny && rng.Intn(2) == 0 {
+			b = int64(1 + rng.Intn(int(c.BB)+2))
+		}
 		switch rng.Intn(6) {
 		case 0: // around a forced amount
 			forced := []int64{c.Ante, c.BB, c.SB, c.DB, c.Ante + c.BB, c.Ante + c.SB}
